@@ -1,13 +1,16 @@
 #!/bin/bash
-# Binding demo for C10: apply small mutations to a scratch worktree (HEAD + hook patch + lock fix), run the
-# quick check, expect exit 1.  Results are listed in spec/jobfile/README.md.
+# Binding demo for C10: apply small mutations to a scratch worktree (HEAD, which has the hooks and the lock fix; the
+# pending patches are applied if the worktree predates them), run the quick check.  Expect exit 1 with PROPERTY
+# PREDICATE keys for the mutations that break a clause of C10, and exit 0 with SPEC-DRIFT for the property-preserving
+# refactorings (negative controls; c10_assign_first_spec.patch is the TLA+ model of the first one, which satisfies
+# every property in MCQuick/MCCrashQuick/MCT2Quick).  Results are listed in spec/jobfile/README.md.
 #   git -C /repo worktree add --detach /tmp/wt-C10 HEAD   (once; remove it and /var/tmp/votca-verif-80f4d324 afterwards)
 WT=/tmp/wt-C10
 base() {
   git -C $WT checkout -q -- .
-  # skip what is already committed in the repository
-  git -C $WT apply /verif/pending_fixes/C10-hooks.patch 2>/dev/null
-  (cd $WT && patch -s -N -p1 < /verif/pending_fixes/C10-filelock.patch >/dev/null 2>&1)
+  # worktrees older than the hook / fix commits get the pending patches
+  grep -q "VOTCA_VERIF_EVENT(201" $WT/xtp/src/libxtp/progressobserver.cc || git -C $WT apply /verif/pending_fixes/C10-hooks.patch
+  grep -q "flock_->lock();" $WT/xtp/src/libxtp/progressobserver.cc || (cd $WT && patch -s -p1 < /verif/pending_fixes/C10-filelock.patch)
 }
 run() { # name, file, python-edit
   base
@@ -20,7 +23,7 @@ open(p,'w').write(s)
 PY
   if [ "$before" = "$(git -C $WT diff | md5sum)" ]; then echo "MUTATION $1: did not apply"; return; fi
   out=$(VERIF_REPO=$WT /verif/bin/vcheck C10 2>&1); rc=$?
-  echo "MUTATION $1: rc=$rc $(echo "$out" | grep -o 'key=[^ ]*' | sort -u | tr '\n' ' ')"
+  echo "MUTATION $1: rc=$rc $(echo "$out" | grep -o 'key=[^ ]*' | sort -u | tr '\n' ' ') drift=$(echo "$out" | grep -c 'SPEC-DRIFT')"
 }
 PO=xtp/src/libxtp/progressobserver.cc
 run sharable-lock $PO 's=s.replace("flock_->lock();","flock_->lock_sharable();").replace("flock_->unlock();","flock_->unlock_sharable();")'
@@ -32,6 +35,14 @@ old="""  WRITE_JOBS(jobs_, progFile);
 """
 s=s.replace(blk,"").replace(old,old+blk)'
 run merge-rule-inverted xtp/src/libxtp/job.cc 's=s.replace("job_ext.getHost() != thisHost","job_ext.getHost() == thisHost")'
-run cache-off-by-one $PO 's=s.replace("while (int(jobsToProc_.size()) < cacheSize) {","while (int(jobsToProc_.size()) <= cacheSize) {")'
 run restart-host-vs-status $PO 's=s.replace("restart_hosts_.count(metajit_->getHost())","restart_hosts_.count(metajit_->getStatusStr())")'
+run assigned-job-without-host $PO 's=s.replace("      metajit_->setHost(GenerateHost());\n","")'
+echo "--- negative controls: property-preserving changes, expected rc=0 and drift>0"
+run NEG-cache-off-by-one-is-not-a-clause-of-C10 $PO 's=s.replace("while (int(jobsToProc_.size()) < cacheSize) {","while (int(jobsToProc_.size()) <= cacheSize) {")'
+run NEG-assign-before-backup $PO 'a=s.index("  // ASSIGN NEW JOBS IF AVAILABLE")
+b=s.index("  VOTCA_VERIF_EVENT(205, this, 0);  // jobs assigned\n")+len("  VOTCA_VERIF_EVENT(205, this, 0);  // jobs assigned\n")
+blk=s[a:b]
+s=s[:a]+s[b:]
+k=s.index("  // GENERATE BACK-UP FOR SHARED XML")
+s=s[:k]+blk+"\n"+s[k:]'
 git -C $WT checkout -q -- .
